@@ -20,8 +20,9 @@ class Prop(SeqProp):
     rule = ("a file of 12 lines opened in a parent, then a tree of up to 6 really forked processes (children and "
             "grandchildren); every access is split into its seek and its read by wrappers around the handle inside the forked "
             "processes, and the orchestrator interleaves them: seeks and reads of other processes and forks are placed between "
-            "the seek and the read of a process; all three variants (buffered, memory-mapped, MapAccessFile), plus sequential "
-            "`next line` reads for the line files; every line read is compared with the Lean model and with the requested line; "
+            "the seek and the read of a process; all three variants (buffered, memory-mapped, MapAccessFile), accesses by "
+            "index and by steps of a process's own `for line in f` iteration (also as its first access after the fork), plus "
+            "sequential `next line` reads for the line files; every line read is compared with the Lean model and with the requested line; "
             "non-trivial = at least two processes with an access overlapping another one")
     trusted_base = ["Lean 4.33.0 kernel", "axioms: propext, Classical.choice, Quot.sound (audited per theorem)",
                     "hand-written model Model/ForkFile.lean tied to files.py by this correspondence run on real forks and real "
@@ -42,8 +43,13 @@ class Prop(SeqProp):
                 self.scratch = None
 
     def corpus(self):
-        return [Case(["fork 0", "seek 0 3", "seek 1 7", "read 0", "read 1", "fork 1", "seek 2 5", "seek 1 1", "seek 0 9",
-                      "read 1", "read 2", "read 0"], {"variant": v}, "parent, child and grandchild interleaved") for v in VARIANTS]
+        cs = [Case(["fork 0", "seek 0 3", "seek 1 7", "read 0", "read 1", "fork 1", "seek 2 5", "seek 1 1", "seek 0 9",
+                    "read 1", "read 2", "read 0"], {"variant": v}, "parent, child and grandchild interleaved") for v in VARIANTS]
+        # a child whose first access after the fork is iteration, interleaved with the parent's random access
+        for v in VARIANTS[:2]:
+            cs.append(Case(["fork 0", "seek 1 0", "seek 0 8", "read 1", "read 0", "seek 1 1", "seek 0 5", "read 0", "read 1"],
+                           {"variant": v, "iter_ops": [1, 5]}, "child iterates first"))
+        return cs
 
     def gen(self, rng, n, tier):
         for _ in range(n):
@@ -52,11 +58,19 @@ class Prop(SeqProp):
             nprocs = 1
             paused = {}   # proc -> line
             last = {}     # proc -> last line read (for `next`)
+            itpos = {}    # proc -> position of its own `for line in f` iteration (line files only)
+            iter_ops = []
             for _ in range(rng.randint(4, 30)):
                 r = rng.random()
                 idle = [p for p in range(nprocs) if p not in paused]
                 if r < 0.15 and nprocs < 6 and idle:
                     ops.append(f"fork {rng.choice(idle)}"); nprocs += 1
+                elif r < 0.25 and idle and variant != "MapAccessFile" and any(itpos.get(p, 0) < NLINES for p in idle):
+                    # a step of the process's own iteration (possibly its very first access after the fork)
+                    p = rng.choice([q for q in idle if itpos.get(q, 0) < NLINES])
+                    line = itpos.get(p, 0)
+                    iter_ops.append(len(ops))
+                    ops.append(f"seek {p} {line}"); paused[p] = line; itpos[p] = line + 1
                 elif r < 0.55 and idle:
                     p = rng.choice(idle); line = rng.randrange(NLINES)
                     ops.append(f"seek {p} {line}"); paused[p] = line
@@ -64,13 +78,13 @@ class Prop(SeqProp):
                     p = rng.choice(sorted(paused))
                     ops.append(f"read {p}"); last[p] = paused.pop(p)
                 elif variant != "MapAccessFile" and idle:
-                    cand = [p for p in idle if p in last and last[p] + 1 < NLINES]
+                    cand = [p for p in idle if p in last and last[p] + 1 < NLINES and p not in itpos]
                     if cand:
                         p = rng.choice(cand)
                         ops.append(f"read {p}"); last[p] += 1
             for p in sorted(paused):
                 ops.append(f"read {p}")
-            yield Case(ops, {"variant": variant})
+            yield Case(ops, {"variant": variant, "iter_ops": iter_ops})
 
     def run_impl(self, case):
         if self.scratch is None:
@@ -80,6 +94,7 @@ class Prop(SeqProp):
         with open(path, "w") as fh:
             fh.write("".join(l + "\n" for l in lines))
         tree = ForkTree(case.meta["variant"], path, lines)
+        iter_ops = set(case.meta.get("iter_ops", []))
         out = []
         paused = set()
         try:
@@ -90,7 +105,10 @@ class Prop(SeqProp):
                     if w[0] == "fork":
                         tree.fork(int(w[1])); out.append("ok")
                     elif w[0] == "seek":
-                        r = tree.seek(int(w[1]), int(w[2]))
+                        if len(out) in iter_ops:
+                            r = tree.seek_iter(int(w[1]))
+                        else:
+                            r = tree.seek(int(w[1]), int(w[2]))
                         if r[0] == "ok":
                             paused.add(int(w[1])); out.append("ok")
                         else:
